@@ -65,6 +65,7 @@ def make_helper(h):
 case_strategy = st.fixed_dictionaries({
     "hdr": header_strategy,
     "pix_frac": st.tuples(f(0, 1), f(0, 1)),          # (row frac, col frac) inside the image
+    "form": st.sampled_from(["tuple", "tuple", "list", "array"]),     # how positions are handed to the helper
     "r": f(1, 20), "ratio": f(0.2, 1.0),
     "theta": st.one_of(f(-180, 180, exclude_min=True), st.sampled_from([0.0, 90.0, 180.0, -90.0, 45.0])),
 })
@@ -84,16 +85,27 @@ def check_case(c):
     x = 1 + c["pix_frac"][0] * (n2 - 1)
     y = 1 + c["pix_frac"][1] * (n1 - 1)
     theta, r, ratio = c["theta"], c["r"], c["ratio"]
+    # call form of the position argument: the relations are stated for the CALLER's values, so an argument that comes
+    # back changed breaks them for every caller that goes on using it
+    form = c.get("form", "tuple")
+
+    def H(name, p, q, *rest):
+        arg = (p, q) if form == "tuple" else [p, q] if form == "list" else np.array([p, q], dtype=np.float64)
+        out = getattr(helper, name)(arg, *rest)
+        if form != "tuple" and not (float(arg[0]) == float(p) and float(arg[1]) == float(q)):
+            res.bad("input-modified", "%s(%s position) changed its argument from (%r, %r) to (%r, %r)" % (
+                name, form, p, q, float(arg[0]), float(arg[1])), proj=h["proj"])
+        return out
 
     # (1)(2) position: agrees with the FITS standard, and inverse
-    ra, dec = (float(v) for v in helper.pix2sky((x, y)))
+    ra, dec = (float(v) for v in H("pix2sky", x, y))
     hra, hdec = (float(v) for v in w.pix2sky(y, x))
     sep = float(refs.vsep(ra, dec, hra, hdec))
     res.stat("pix2sky_err_deg", sep)
     if not sep <= 1e-9:
         res.bad("pix2sky-standard", "pix2sky((%r,%r)) = (%r,%r); FITS standard gives (%r,%r), %.3g deg away" % (
             x, y, ra, dec, hra, hdec, sep), proj=h["proj"])
-    bx, by = (float(v) for v in helper.sky2pix((ra, dec)))
+    bx, by = (float(v) for v in H("sky2pix", ra, dec))
     d = math.hypot(bx - x, by - y)
     res.stat("roundtrip_px", d)
     if not d <= 1e-6:
@@ -104,7 +116,7 @@ def check_case(c):
         res.bad("sky2pix-standard", "harness inverse of pix2sky((%r,%r)) is (%r,%r) [axis1,axis2]" % (x, y, float(hx), float(hy)))
 
     # (3) vector pixel -> sky: great-circle length and East-of-North angle of the mapped end points
-    ra1, dec1, vlen, vpa = (float(v) for v in helper.pix2sky_vec((x, y), r, theta))
+    ra1, dec1, vlen, vpa = (float(v) for v in H("pix2sky_vec", x, y, r, theta))
     ex = x + r * math.cos(math.radians(theta))
     ey = y + r * math.sin(math.radians(theta))
     era, edec = (float(v) for v in w.pix2sky(ey, ex))
@@ -126,20 +138,20 @@ def check_case(c):
         vx, vy = float(p2) - x, float(p1) - y
         rr = math.hypot(vx, vy)
         th = math.degrees(math.atan2(vy, vx))
-        _, _, l2, pa2 = (float(v) for v in helper.pix2sky_vec((x, y), rr, th))
+        _, _, l2, pa2 = (float(v) for v in H("pix2sky_vec", x, y, rr, th))
         if not abs(float(refs.angdiff(pa2, want))) <= 0.01:
             res.bad("east-of-north", "a pixel vector towards %s came back with pa=%r (want %r)" % (name, pa2, want), proj=h["proj"])
         if not rel(l2, step) <= 1e-6:
             res.bad("vec-length", "a %r deg step towards %s came back with length %r" % (step, name, l2), proj=h["proj"])
 
     # (4) vector round trips
-    _, _, r2, th2 = (float(v) for v in helper.sky2pix_vec((ra1, dec1), vlen, vpa))
+    _, _, r2, th2 = (float(v) for v in H("sky2pix_vec", ra1, dec1, vlen, vpa))
     if not (rel(r2, r) <= 1e-3 and abs(float(refs.angdiff(th2, theta))) <= 0.01):
         res.bad("vec-roundtrip-pix", "pix (r=%r, theta=%r) -> sky (%r, %r) -> pix (%r, %r)" % (r, theta, vlen, vpa, r2, th2),
                 proj=h["proj"])
     sky_r = r * s
-    _, _, pr, pth = (float(v) for v in helper.sky2pix_vec((ra, dec), sky_r, theta))
-    _, _, sr2, spa2 = (float(v) for v in helper.pix2sky_vec((x, y), pr, pth))
+    _, _, pr, pth = (float(v) for v in H("sky2pix_vec", ra, dec, sky_r, theta))
+    _, _, sr2, spa2 = (float(v) for v in H("pix2sky_vec", x, y, pr, pth))
     if not (rel(sr2, sky_r) <= 1e-3 and abs(float(refs.angdiff(spa2, theta))) <= 0.01):
         res.bad("vec-roundtrip-sky", "sky (r=%r, pa=%r) -> pix (%r, %r) -> sky (%r, %r)" % (sky_r, theta, pr, pth, sr2, spa2),
                 proj=h["proj"])
@@ -157,8 +169,8 @@ def check_case(c):
     if not judge_ellipse:
         res.ambiguous += 1
         res.label("ellipse-not-small(skipped)")
-    _, _, sx, sy, th = (float(v) for v in helper.sky2pix_ellipse((ra, dec), a, b, theta))
-    _, _, a2, b2, pa2 = (float(v) for v in helper.pix2sky_ellipse((x, y), sx, sy, th))
+    _, _, sx, sy, th = (float(v) for v in H("sky2pix_ellipse", ra, dec, a, b, theta))
+    _, _, a2, b2, pa2 = (float(v) for v in H("pix2sky_ellipse", x, y, sx, sy, th))
     ea, eb = rel(a2, a), rel(b2, b)
     epa = abs(float(refs.angdiff(pa2, theta, 180.0)))
     if judge_ellipse:
@@ -174,14 +186,14 @@ def check_case(c):
     if not rel(sx, tsx) <= 1e-6:
         res.bad("ellipse-major-length", "sky2pix_ellipse sx=%r, harness pixel length of the major axis %r" % (sx, tsx), proj=h["proj"])
     psx, psy = r, r * ratio
-    _, _, pa_, pb_, ppa = (float(v) for v in helper.pix2sky_ellipse((x, y), psx, psy, theta))
-    _, _, sx2, sy2, th3 = (float(v) for v in helper.sky2pix_ellipse((ra, dec), pa_, pb_, ppa))
+    _, _, pa_, pb_, ppa = (float(v) for v in H("pix2sky_ellipse", x, y, psx, psy, theta))
+    _, _, sx2, sy2, th3 = (float(v) for v in H("sky2pix_ellipse", ra, dec, pa_, pb_, ppa))
     if judge_ellipse and not (rel(sx2, psx) <= 1e-3 and rel(sy2, psy) <= 1e-3 and abs(float(refs.angdiff(th3, theta, 180.0))) <= 0.01):
         res.bad("ellipse-roundtrip-pix", "pix (sx=%r,sy=%r,theta=%r) -> sky (%r,%r,%r) -> pix (%r,%r,%r)" % (
             psx, psy, theta, pa_, pb_, ppa, sx2, sy2, th3), proj=h["proj"])
 
     # (6) psf look-up without a psf map: the header beam at the reference pixel
-    rra, rdec = (float(v) for v in helper.pix2sky((hdr["CRPIX2"], hdr["CRPIX1"])))
+    rra, rdec = (float(v) for v in H("pix2sky", hdr["CRPIX2"], hdr["CRPIX1"]))
     ba, bb, bpa = (float(v) for v in helper.get_psf_sky2sky(rra, rdec))
     okpa = h["beam"][1] > 0.95 or abs(float(refs.angdiff(bpa, hdr["BPA"], 180.0))) <= 0.01
     if not (rel(ba, hdr["BMAJ"]) <= 1e-3 and rel(bb, hdr["BMIN"]) <= 1e-3 and okpa):
